@@ -381,7 +381,7 @@ impl Report {
         o.put("prop", self.prop.as_str());
         o.put("evaluations", self.evaluations);
         o.put("trivial", self.trivial);
-        o.put("distinct_hashes", J::A(distinct.into_iter().map(|h| J::S(format!("{h:016x}"))).collect()));
+        o.put("distinct_count", distinct.len());
         o.put("samples", J::A(self.samples.clone()));
         o.put("violation_count", self.violation_count);
         o.put(
@@ -406,6 +406,14 @@ impl Report {
         o
     }
     pub fn write(&self, path: &str) {
+        // distinct case hashes go to a binary side file (sorted u64 LE); the driver counts the union over shards
+        let mut distinct: Vec<u64> = self.distinct.iter().copied().collect();
+        distinct.sort_unstable();
+        let mut bytes = Vec::with_capacity(distinct.len() * 8);
+        for h in &distinct {
+            bytes.extend_from_slice(&h.to_le_bytes());
+        }
+        std::fs::write(format!("{path}.distinct"), bytes).expect("write distinct file");
         std::fs::write(path, self.to_json().render()).expect("write report");
     }
 }
@@ -481,4 +489,22 @@ impl Cfg {
     pub fn wants_backend(&self, name: &str) -> bool {
         self.backend == "all" || self.backend.split(',').any(|b| b == name)
     }
+}
+
+/// `pvm count-distinct <dir>`: number of distinct u64 hashes in the union of all `*.distinct` files of a directory.
+pub fn count_distinct(dir: &str) -> u64 {
+    let mut all: Vec<u64> = Vec::new();
+    if let Ok(rd) = std::fs::read_dir(dir) {
+        for e in rd.flatten() {
+            let p = e.path();
+            if p.extension().map(|x| x == "distinct").unwrap_or(false) {
+                if let Ok(b) = std::fs::read(&p) {
+                    all.extend(b.chunks_exact(8).map(|c| u64::from_le_bytes(c.try_into().unwrap())));
+                }
+            }
+        }
+    }
+    all.sort_unstable();
+    all.dedup();
+    all.len() as u64
 }
